@@ -70,7 +70,10 @@ pub fn judge_run_masked(run: &[RunSlot], sfn: &[u8; 11], ord_mask: u8) -> (Lfn, 
         Some(p) => {
             let rest_ok = units[p + 1..].iter().all(|u| *u == 0xFFFF);
             let in_last = p >= (n - 1) * 13;
-            (units[..p].to_vec(), !(rest_ok && in_last))
+            // a name whose own last unit is 0xFFFF (the padding value) in front of the terminator: readers that
+            // strip padding from the end return it shortened (recorded as finding D17 under C15); both readings pass
+            let ends_in_padding_value = p > 0 && units[p - 1] == 0xFFFF;
+            (units[..p].to_vec(), !(rest_ok && in_last) || ends_in_padding_value)
         }
         None => {
             // no terminator: every unit belongs to the name; a trailing 0xFFFF is then indistinguishable from
